@@ -84,7 +84,7 @@ impl GridSpec {
     pub fn gravsoft(&self, rng: &mut Rng) -> String {
         let mut s = String::new();
         if rng.chance(0.5) {
-            s += "# generated grid\n";
+            s += *rng.pick(&["# generated grid\n", "## generated grid ##\n", "#----------#\n# a # b # 1 2 3\n"]);
         }
         let n = |x: f64| format!("{x}");
         let sep = |rng: &mut Rng| *rng.pick(&[" ", "  ", "\t", "   "]);
@@ -111,7 +111,7 @@ impl GridSpec {
                     s += &format!("{}", self.file_value(r, c, b));
                     k += 1;
                     if per_line > 0 && k % per_line == 0 {
-                        s += *rng.pick(&["\n", " \n", "\n\n", " # c\n"]);
+                        s += *rng.pick(&["\n", " \n", "\n\n", " # c\n", " # row # checked 7\n"]);
                     } else {
                         s += sep(rng);
                     }
